@@ -49,9 +49,9 @@ CASES = [
     ('api-split/aggregate-or-distinct-evaluated-twice', 'api3', 'SELECT x, count(*) AS n0 FROM int3.te GROUP BY x', {},
      'for an api-type integration the fetch gets the target list but not GROUP BY / DISTINCT, and the sub-select evaluates the same targets again: aggregates are computed over the whole table in the fetch and once more over its single result row',
      'query_planner.py:plan_api_db_select'),
-    ('cte-shadow/own-source-table-pushdown-circular', 'default', 'WITH ta AS (SELECT id, x, y FROM int1.ta) SELECT ta.x, ta.y FROM ta', {},
-     'a CTE named like its own source table, whole statement sent to that integration: prepare_integration_select strips the qualifier of the source table, the fetch query becomes `WITH ta AS (SELECT … FROM ta) …`, a circular reference',
-     'query_planner.py:check_single_integration / prepare_integration_select'),
+    ('cte-shadow/pushdown-strips-qualifier', 'project', 'WITH ta AS (SELECT id, x, y FROM int1.tb) SELECT ta.x, p.y FROM ta LEFT JOIN int1.ta AS p ON ta.id = p.id', {},
+     'a statement with a CTE is sent as a whole to one integration with the integration part of table names cut off; a real table of that integration named like the CTE is then read as the CTE (if it is the CTE\'s own source table: `WITH ta AS (SELECT … FROM ta)`, a circular reference)',
+     'query_planner.py:check_single_integration / prepare_integration_select; plan_join.py:PlanJoin.check_single_integration'),
     ('cte-shadow/qualified-table-in-default-namespace', 'default', 'WITH tb AS (SELECT id, x, y FROM int3.tf) SELECT tb.x, u.y FROM tb JOIN int1.tb AS u ON tb.id = u.id', {},
      'a QUALIFIED table of the default namespace whose name equals a CTE name is replaced by the CTE rows (the real table is never fetched)',
      'query_planner.py:get_integration_select_step (integration_name == default_namespace and table_name in cte_results)'),
